@@ -435,6 +435,8 @@ def run_symbolic(spec, cfg, max_paths=4096, solver_timeout_ms=20000, crosscheck=
                     r = cross_check_path(ex, ctx, smp["ctx"])
                     if r is True:
                         smp["matched"] = True
+                    elif r == "unknown":
+                        smp["unknown"] = True  # solver budget: this sample cannot be attributed to a path
                     elif r is not None:
                         cc_fail = r
     except S.Unsupported as e:
@@ -483,12 +485,16 @@ def run_symbolic(spec, cfg, max_paths=4096, solver_timeout_ms=20000, crosscheck=
             r.detail = (r.detail + " | " if r.detail else "") + rec["note"]
         results.append(r)
     if crosscheck and err is None:
-        if cc_fail is None and samples and not all(s_["matched"] for s_ in samples):
-            miss = next(s_ for s_ in samples if not s_["matched"])
-            cc_fail = f"no symbolic path covers native input {_jsonable(miss['ctx'].drawn)}"
+        inconclusive = [s_ for s_ in samples if not s_["matched"] and s_.get("unknown")]
+        missed = [s_ for s_ in samples if not s_["matched"] and not s_.get("unknown")]
+        if cc_fail is None and missed:
+            cc_fail = f"no symbolic path covers native input {_jsonable(missed[0]['ctx'].drawn)}"
         if cc_fail is None and not samples:
             cc_fail = "cross-check could not draw any admissible input"
-        results.append(ObResult(ob=f"{spec.id}/__crosscheck__", kind="crosscheck", verdict="discharged" if cc_fail is None else "error", detail=cc_fail or f"{len(samples)} random inputs: symbolic result == native result", backend="native", **base))
+        nmatched = sum(1 for s_ in samples if s_["matched"])
+        verdict = "error" if cc_fail is not None else ("discharged" if nmatched else "undecided")
+        detail = cc_fail or f"{nmatched} random inputs: symbolic result == native result" + (f"; {len(inconclusive)} inconclusive (solver budget while matching the input to a path)" if inconclusive else "")
+        results.append(ObResult(ob=f"{spec.id}/__crosscheck__", kind="crosscheck", verdict=verdict, detail=detail, backend="native", **base))
     return results
 
 
@@ -530,7 +536,7 @@ def cross_check_path(ex, sctx, nctx):
     None = this path does not cover the input, str = discrepancy."""
     drawn = nctx.drawn
     s = z3.Solver()
-    s.set("timeout", 10000)
+    s.set("timeout", 60000)
     for c in ex.sides + ex.assumes + ex.pc:
         s.add(c)
     for name, (kind, shape, zs) in sctx.vars.items():
@@ -544,7 +550,10 @@ def cross_check_path(ex, sctx, nctx):
             else:
                 fv = Fraction(float(val))  # the native run saw the float rounding of the drawn value
                 s.add(zv == z3.RealVal(f"{fv.numerator}/{fv.denominator}"))
-    if s.check() != z3.sat:
+    r0 = s.check()
+    if r0 == z3.unknown:
+        return "unknown"
+    if r0 != z3.sat:
         return None
     # uninterpreted real functions (exp/log/tanh/sigmoid/...): pin every recorded occurrence to the true function value at
     # the sampled input (occurrences are recorded in creation order, so arguments only depend on earlier ones)
